@@ -143,7 +143,7 @@ R('odak.raytracing.propagate_parametric_intersection_error', lambda g: A([g.u(0,
 R('odak.raytracing.intersect_w_sphere', lambda g: A(np.array([[0., 0., -10.], [g.u(-.05, .05), g.u(-.05, .05), 1.]]), np.array([0., 0., 0., g.u(1, 3)])))
 R('odak.raytracing.intersect_w_cylinder', lambda g: A(np.array([[0., 0., -10.], [g.u(-.05, .05), g.u(-.05, .05), 1.]]), np.array([0., 0., 0., g.u(1, 3), 0., 1., 0.])))
 R('odak.raytracing.define_plane', lambda g: A(g.arr(3), **g.opt(angles=g.angles())))
-R('odak.raytracing.bring_plane_to_origin', lambda g: A(g.arr(3), g.arr(3, 3), **g.opt(shape=[5., 5.], center=g.origin(), angles=g.angles(), mode=g.mode())))
+R('odak.raytracing.bring_plane_to_origin', lambda g: A(g.arr(3), g.arr(3, 3), **g.opt(shape=[5., 5.], center=g.origin(), angles=g.angles(), mode='XYZ')))
 R('odak.raytracing.center_of_triangle', lambda g: A(_tri_np(g)))
 R('odak.raytracing.is_it_on_triangle', lambda g: A(g.arr(3), g.arr(3), g.arr(3) + 1, g.arr(3) + 2))
 R('odak.raytracing.define_circle', lambda g: A(g.lst(3), g.u(1, 3), g.angles()))
